@@ -22,7 +22,7 @@ theorem stCreate_step (s : State) (ip : IP) (r : Rec) : StoreStep s (stCreate s 
   · exact ⟨api_frame s, rfl, rfl⟩
   · split
     · exact ⟨api_frame s, rfl, rfl⟩
-    · exact ⟨⟨rfl, rfl, rfl, rfl, rfl, rfl, rfl, rfl, rfl, rfl, rfl, rfl, rfl, rfl, api_calls_le s⟩, rfl, rfl⟩
+    · exact ⟨⟨rfl, rfl, rfl, rfl, rfl, rfl, rfl, rfl, rfl, rfl, rfl, rfl, rfl, rfl, api_calls_le s, rfl⟩, rfl, rfl⟩
 
 theorem stCreate_store (s : State) (ip : IP) (r : Rec) :
     ((stCreate s ip r).2 = true → (stCreate s ip r).1.store = Tbl.set s.store ip r) ∧
@@ -71,7 +71,7 @@ theorem stUpdate_step (s : State) (ip : IP) (r : Rec) : StoreStep s (stUpdate s 
     · exact ⟨f1, rfl, rfl⟩
     · split
       · exact ⟨f1.trans f2, rfl, rfl⟩
-      · exact ⟨⟨rfl, rfl, rfl, rfl, rfl, rfl, rfl, rfl, rfl, rfl, rfl, rfl, rfl, rfl, Nat.le_trans (api_calls_le s) (api_calls_le s.api.1)⟩, rfl, rfl⟩
+      · exact ⟨⟨rfl, rfl, rfl, rfl, rfl, rfl, rfl, rfl, rfl, rfl, rfl, rfl, rfl, rfl, Nat.le_trans (api_calls_le s) (api_calls_le s.api.1), rfl⟩, rfl, rfl⟩
 
 theorem stUpdate_store (s : State) (ip : IP) (r : Rec) :
     ((stUpdate s ip r).2 = true → (stUpdate s ip r).1.store = Tbl.set s.store ip r) ∧
@@ -91,7 +91,7 @@ theorem stDelete_step (s : State) (ip : IP) : StoreStep s (stDelete s ip).1 := b
   · exact ⟨api_frame s, rfl, rfl⟩
   · split
     · exact ⟨api_frame s, rfl, rfl⟩
-    · exact ⟨⟨rfl, rfl, rfl, rfl, rfl, rfl, rfl, rfl, rfl, rfl, rfl, rfl, rfl, rfl, api_calls_le s⟩, rfl, rfl⟩
+    · exact ⟨⟨rfl, rfl, rfl, rfl, rfl, rfl, rfl, rfl, rfl, rfl, rfl, rfl, rfl, rfl, api_calls_le s, rfl⟩, rfl, rfl⟩
 
 theorem stDelete_store (s : State) (ip : IP) :
     ((stDelete s ip).2 = true → (stDelete s ip).1.store = Tbl.erase s.store ip) ∧
@@ -122,10 +122,10 @@ theorem stDelete_ok_of_spent (s : State) (ip : IP) (h : FaultSpent s) (hs : (Tbl
 /-! ### memory updates -/
 
 theorem memAlloc_frame (s : State) (ip : IP) (r : Rec) : Frame s (memAlloc s ip r) :=
-  ⟨rfl, rfl, rfl, rfl, rfl, rfl, rfl, rfl, rfl, rfl, rfl, rfl, rfl, rfl, Nat.le_refl _⟩
+  ⟨rfl, rfl, rfl, rfl, rfl, rfl, rfl, rfl, rfl, rfl, rfl, rfl, rfl, rfl, Nat.le_refl _, rfl⟩
 
 theorem memFree_frame (s : State) (ip : IP) : Frame s (memFree s ip) :=
-  ⟨rfl, rfl, rfl, rfl, rfl, rfl, rfl, rfl, rfl, rfl, rfl, rfl, rfl, rfl, Nat.le_refl _⟩
+  ⟨rfl, rfl, rfl, rfl, rfl, rfl, rfl, rfl, rfl, rfl, rfl, rfl, rfl, rfl, Nat.le_refl _, rfl⟩
 
 @[simp] theorem memAlloc_alloc (s : State) (ip : IP) (r : Rec) : (memAlloc s ip r).alloc = Tbl.set s.alloc ip r := rfl
 @[simp] theorem memAlloc_store (s : State) (ip : IP) (r : Rec) : (memAlloc s ip r).store = s.store := rfl
